@@ -1,6 +1,7 @@
 ---- MODULE MC_RouteCache ----
 \* C19 at the property's quantifier: 2 source networks x 3 routers x 4 destinations, every argument set,
-\* all operation sequences up to length 5 (MC_RouteCache.cfg, deviations off: every property must hold);
+\* no effective level bound: TLC closes the universe (66 048 states, depth 7), i.e. operation sequences of any length,
+\* which includes the "up to length 5" of the property (MC_RouteCache.cfg, deviations off: every property must hold);
 \* MC_RouteCache_dev.cfg: the code's known deviations switched on (finding F14): Coherent / DeleteExact must fail.
 \* The driver harness/drivers/c19.py generates the same configurations (and smaller ones for the state-graph replay).
 EXTENDS RouteCache
